@@ -1,7 +1,743 @@
 package main
 
-import "verifharness/hlib"
+// C12: real checkpoint creation and restoration against the Lean chunker/restorer model.
+//
+// A case is a list of lines:
+//   src BACKEND                     backend of the source database (badger | pathbadger | badgermem | pathbadgermem)
+//   kv K V                          contents
+//   cp SIZE THREADS                 CreateCheckpoint(root, SIZE, THREADS): chunk files are decoded and compared
+//                                   with the model's chunk list; cover and determinism checks
+//   restore BACKEND STEP,STEP,...   restore the last checkpoint into an empty database; steps:
+//        <i>        RestoreChunk(i) with the real chunk bytes
+//        <i>f       RestoreChunk(i) with one byte of the file flipped (digest mismatch expected)
+//        <i>t       RestoreChunk(i) with the file truncated
+//        A          abort and restart the whole restore (AbortRestore + AbortMultipartInsert)
+//   restorec BACKEND N SEED         N goroutines restore all chunks concurrently, each in its own order
+//   badproof I KIND                 metadata lists the digest of a re-encoded, altered chunk I
+//                                   (right digest, wrong proof): must fail verification, import nothing
 
-func runCaseC12(lines []string, res *hlib.Result) ([]hlib.Failure, int) { return nil, 0 }
+import (
+	"bytes"
+	"errors"
+	"fmt"
+	"io"
+	"os"
+	"path/filepath"
+	"runtime"
+	"sort"
+	"strings"
+	"sync"
 
-func genCaseC12(r *hlib.Rng, res *hlib.Result, i int, big int) []string { return nil }
+	"github.com/golang/snappy"
+
+	"verifharness/hlib"
+
+	"github.com/oasisprotocol/oasis-core/go/common/cbor"
+	"github.com/oasisprotocol/oasis-core/go/common/crypto/hash"
+	"github.com/oasisprotocol/oasis-core/go/storage/mkvs"
+	"github.com/oasisprotocol/oasis-core/go/storage/mkvs/checkpoint"
+	db "github.com/oasisprotocol/oasis-core/go/storage/mkvs/db/api"
+	"github.com/oasisprotocol/oasis-core/go/storage/mkvs/node"
+	"github.com/oasisprotocol/oasis-core/go/storage/mkvs/syncer"
+)
+
+// decodeChunk: snappy + CBOR stream of byte strings (chunk.go writeChunk / restoreChunk).
+func decodeChunk(b []byte) ([][]byte, error) {
+	dec := cbor.NewDecoder(snappy.NewReader(bytes.NewReader(b)))
+	var out [][]byte
+	for {
+		var e []byte
+		if err := dec.Decode(&e); err != nil {
+			if errors.Is(err, io.EOF) {
+				return out, nil
+			}
+			return out, err
+		}
+		out = append(out, e)
+	}
+}
+
+// encodeChunk re-encodes an entry list the way writeChunk does; returns bytes and digest.
+func encodeChunk(es [][]byte) ([]byte, hash.Hash) {
+	var buf bytes.Buffer
+	hb := hash.NewBuilder()
+	sw := snappy.NewBufferedWriter(io.MultiWriter(&buf, hb))
+	enc := cbor.NewEncoder(sw)
+	for _, e := range es {
+		if err := enc.Encode(e); err != nil {
+			panic(err)
+		}
+	}
+	if err := sw.Close(); err != nil {
+		panic(err)
+	}
+	return buf.Bytes(), hb.Build()
+}
+
+type checkpointData struct {
+	meta   *checkpoint.Metadata
+	chunks [][]byte   // raw chunk files
+	dec    [][][]byte // decoded entry lists
+}
+
+func createCheckpoint(s *server, size uint64, threads uint16) (*checkpointData, error) {
+	dir := scratchDir("cp")
+	defer os.RemoveAll(dir)
+	fc, err := checkpoint.NewFileCreator(dir, s.ndb)
+	if err != nil {
+		return nil, err
+	}
+	meta, err := fc.CreateCheckpoint(ctx, s.root, size, threads)
+	if err != nil {
+		return nil, err
+	}
+	cd := &checkpointData{meta: meta}
+	for i := range meta.Chunks {
+		cm, err := meta.GetChunkMetadata(uint64(i))
+		if err != nil {
+			return nil, err
+		}
+		var buf bytes.Buffer
+		if err = fc.GetCheckpointChunk(ctx, cm, &buf); err != nil {
+			return nil, err
+		}
+		raw := append([]byte{}, buf.Bytes()...)
+		cd.chunks = append(cd.chunks, raw)
+		es, err := decodeChunk(raw)
+		if err != nil {
+			return nil, fmt.Errorf("chunk %d does not decode: %w", i, err)
+		}
+		cd.dec = append(cd.dec, es)
+	}
+	return cd, nil
+}
+
+// ptrHashes collects the hashes of all materialised nodes below a verified pointer.
+func ptrHashes(p *node.Pointer, out map[hash.Hash]bool) {
+	if p == nil || p.Node == nil {
+		return
+	}
+	out[p.Hash] = true
+	if in, ok := p.Node.(*node.InternalNode); ok {
+		ptrHashes(in.LeafNode, out)
+		ptrHashes(in.Left, out)
+		ptrHashes(in.Right, out)
+	}
+}
+
+type c12Runner struct {
+	caseRunner
+	cp     *checkpointData
+	cpSize uint64
+	cpThr  uint16
+	deep   bool // tree deeper than maxProofDepth: restore is expected to fail (F3)
+}
+
+func (c *c12Runner) runCp(size uint64, threads uint16) {
+	s := c.srv
+	cd, err := createCheckpoint(s, size, threads)
+	if err != nil {
+		c.fail("spec", "create-checkpoint-error", fmt.Sprintf("CreateCheckpoint(size=%d, threads=%d): %v", size, threads, err))
+		return
+	}
+	c.cp, c.cpSize, c.cpThr = cd, size, threads
+	c.res.Count(fmt.Sprintf("cp:threads=%d", threads))
+	switch {
+	case len(cd.dec) == 1:
+		c.res.Count("cp:chunks=1")
+	case len(cd.dec) <= 10:
+		c.res.Count("cp:chunks=2..10")
+	default:
+		c.res.Count("cp:chunks>10")
+	}
+	c.res.CountN("cp:chunks-total", len(cd.dec))
+	// (1) correspondence: the model's chunk list, byte for byte
+	parts := make([]string, len(cd.dec))
+	for i, es := range cd.dec {
+		parts[i] = showEntries(es)
+	}
+	want := fmt.Sprintf("chunks %d %s", len(cd.dec), strings.Join(parts, "|"))
+	if threads == 0 {
+		c.ask(fmt.Sprintf("chunks %d", size), "chunks-differ", expect(want))
+	} else {
+		c.ask(fmt.Sprintf("pchunks %d %d", size, threads), "chunks-differ", expect(want))
+	}
+	// (2) digests in the metadata are the digests of the files
+	for i, raw := range cd.chunks {
+		h := hash.NewFromBytes(raw)
+		if !h.Equal(&cd.meta.Chunks[i]) {
+			c.fail("spec", "spec-digest-mismatch", fmt.Sprintf("chunk %d: metadata digest differs from the file's hash", i))
+		}
+	}
+	// (3) every chunk is a V0 proof for the root; the union of materialised nodes is the tree
+	all := map[hash.Hash]bool{}
+	var pv syncer.ProofVerifier
+	for i, es := range cd.dec {
+		p := &syncer.Proof{V: 0, UntrustedRoot: s.root.Hash, Entries: es}
+		ptr, err := pv.VerifyProof(ctx, s.root.Hash, p)
+		if err != nil {
+			if strings.Contains(err.Error(), "max proof depth exceeded") {
+				c.deep = true
+				c.fail("spec", "proof-depth-exceeded-checkpoint-chunk",
+					fmt.Sprintf("chunk %d of a checkpoint of a tree deeper than maxProofDepth does not verify: %v (consequence of F3: such a checkpoint cannot be restored)", i, err))
+			} else {
+				c.fail("spec", "spec-chunk-does-not-verify", fmt.Sprintf("chunk %d (size=%d threads=%d): %v", i, size, threads, err))
+			}
+			return
+		}
+		ptrHashes(ptr, all)
+	}
+	want2 := map[hash.Hash]bool{}
+	for _, n := range s.nodes() {
+		want2[n.GetHash()] = true
+	}
+	if len(all) != len(want2) {
+		c.fail("spec", "spec-chunks-do-not-cover", fmt.Sprintf("chunks (size=%d threads=%d) materialise %d distinct nodes, the tree has %d", size, threads, len(all), len(want2)))
+	} else {
+		for h := range want2 {
+			if !all[h] {
+				c.fail("spec", "spec-chunks-do-not-cover", fmt.Sprintf("node %s is in no chunk (size=%d threads=%d)", h, size, threads))
+				break
+			}
+		}
+	}
+	// (4) determinism: same metadata under other GOMAXPROCS settings and by repetition
+	old := runtime.GOMAXPROCS(0)
+	for _, procs := range []int{1, 3, 16} {
+		runtime.GOMAXPROCS(procs)
+		cd2, err := createCheckpoint(s, size, threads)
+		if err != nil {
+			c.fail("spec", "create-checkpoint-error", err.Error())
+			break
+		}
+		same := len(cd2.meta.Chunks) == len(cd.meta.Chunks)
+		for i := 0; same && i < len(cd.meta.Chunks); i++ {
+			same = cd2.meta.Chunks[i].Equal(&cd.meta.Chunks[i])
+		}
+		if !same {
+			c.fail("spec", "spec-checkpoint-not-deterministic",
+				fmt.Sprintf("CreateCheckpoint(size=%d, threads=%d) gives different chunk digests under GOMAXPROCS=%d", size, threads, procs))
+			break
+		}
+		c.res.Count("cp:determinism-repeat")
+	}
+	runtime.GOMAXPROCS(old)
+}
+
+// readAll returns the contents readable under the root of a database.
+func readAll(ndb db.NodeDB, root node.Root) ([]kv, error) {
+	t := mkvs.NewWithRoot(nil, ndb, root)
+	defer t.Close()
+	it := t.NewIterator(ctx)
+	defer it.Close()
+	var out []kv
+	for it.Rewind(); it.Valid(); it.Next() {
+		out = append(out, kv{append([]byte{}, it.Key()...), append([]byte{}, it.Value()...)})
+	}
+	return out, it.Err()
+}
+
+// runRestoreConcurrent: several goroutines restore all chunks (each in its own order) at once.
+func (c *c12Runner) runRestoreConcurrent(backend string, workers int, seed uint64) {
+	if c.cp == nil || c.deep {
+		return
+	}
+	s := c.srv
+	cd := c.cp
+	dir := ""
+	if !strings.HasSuffix(backend, "mem") {
+		dir = scratchDir("dst")
+		defer os.RemoveAll(dir)
+	}
+	ndb := openDB(backend, dir)
+	defer ndb.Close()
+	rs, _ := checkpoint.NewRestorer(ndb)
+	if err := ndb.StartMultipartInsert(s.root.Version); err != nil {
+		panic(err)
+	}
+	if err := rs.StartRestore(ctx, cd.meta); err != nil {
+		panic(err)
+	}
+	c.res.Count("restore:concurrent:" + backend)
+	var wg sync.WaitGroup
+	var mu sync.Mutex
+	var bad []string
+	dones := 0
+	for w := 0; w < workers; w++ {
+		wg.Add(1)
+		r := hlib.FromState(seed + uint64(w)*7919)
+		go func() {
+			defer wg.Done()
+			n := len(cd.chunks)
+			perm := make([]int, n)
+			for i := range perm {
+				perm[i] = i
+			}
+			for i := n - 1; i > 0; i-- {
+				j := r.Intn(i + 1)
+				perm[i], perm[j] = perm[j], perm[i]
+			}
+			for _, i := range perm {
+				fin, err := rs.RestoreChunk(ctx, uint64(i), bytes.NewReader(cd.chunks[i]))
+				mu.Lock()
+				if fin {
+					dones++
+				}
+				if err != nil && !errors.Is(err, checkpoint.ErrChunkAlreadyRestored) && !errors.Is(err, checkpoint.ErrNoRestoreInProgress) {
+					bad = append(bad, fmt.Sprintf("RestoreChunk(%d): %v", i, err))
+				}
+				mu.Unlock()
+			}
+		}()
+	}
+	wg.Wait()
+	if len(bad) > 0 {
+		c.fail("spec", "spec-concurrent-restore-error", fmt.Sprintf("%d concurrent callers into %s: %s", workers, backend, bad[0]))
+		return
+	}
+	if dones == 0 {
+		c.fail("spec", "spec-restore-done-flag", "concurrent restore: no caller was told the restore completed")
+		return
+	}
+	if err := ndb.Finalize([]node.Root{s.root}); err != nil {
+		c.fail("spec", "spec-restored-root-not-finalizable", fmt.Sprintf("Finalize after concurrent restore into %s: %v", backend, err))
+		return
+	}
+	got, err := readAll(ndb, s.root)
+	if err != nil {
+		c.fail("spec", "spec-restored-not-readable", fmt.Sprintf("reading the concurrently restored root from %s: %v", backend, err))
+		return
+	}
+	same := len(got) == len(s.keys)
+	for i := 0; same && i < len(got); i++ {
+		same = bytes.Equal(got[i].k, s.keys[i]) && bytes.Equal(got[i].v, s.ref[string(s.keys[i])])
+	}
+	if !same {
+		c.fail("spec", "spec-restored-contents-differ", fmt.Sprintf("concurrently restored database (%s) differs from the original", backend))
+		return
+	}
+	c.res.Count("restore:concurrent-complete")
+}
+
+func (c *c12Runner) runRestore(backend string, steps []string) {
+	if c.cp == nil {
+		return
+	}
+	s := c.srv
+	cd := c.cp
+	dir := ""
+	if !strings.HasSuffix(backend, "mem") {
+		dir = scratchDir("dst")
+		defer os.RemoveAll(dir)
+	}
+	ndb := openDB(backend, dir)
+	defer ndb.Close()
+	rs, err := checkpoint.NewRestorer(ndb)
+	if err != nil {
+		panic(err)
+	}
+	start := func() bool {
+		if err := ndb.StartMultipartInsert(s.root.Version); err != nil {
+			c.fail("spec", "restore-error", "StartMultipartInsert: "+err.Error())
+			return false
+		}
+		if err := rs.StartRestore(ctx, cd.meta); err != nil {
+			c.fail("spec", "restore-error", "StartRestore: "+err.Error())
+			return false
+		}
+		return true
+	}
+	if !start() {
+		return
+	}
+	c.res.Count("restore:" + backend)
+	restored := map[int]bool{}
+	done := false
+	aborted := false
+	var order []string
+	for _, st := range steps {
+		if st == "A" {
+			_ = rs.AbortRestore(ctx)
+			if err := ndb.AbortMultipartInsert(); err != nil {
+				c.fail("spec", "restore-error", "AbortMultipartInsert: "+err.Error())
+				return
+			}
+			// observation only (not part of the property text): both backends keep reporting the
+			// root of an aborted restore through HasRoot although its nodes were removed
+			if !s.root.Hash.IsEmpty() && ndb.HasRoot(s.root) && len(restored) > 0 {
+				c.res.Count("observed:hasroot-true-after-aborted-restore")
+			}
+			aborted = true
+			restored = map[int]bool{}
+			order = nil
+			done = false
+			c.res.Count("restore:abort-restart")
+			if !start() {
+				return
+			}
+			continue
+		}
+		kind := byte(0)
+		if strings.HasSuffix(st, "f") || strings.HasSuffix(st, "t") {
+			kind = st[len(st)-1]
+			st = st[:len(st)-1]
+		}
+		i := atoi(st)
+		if i >= len(cd.chunks) {
+			i = i % len(cd.chunks)
+		}
+		raw := append([]byte{}, cd.chunks[i]...)
+		switch kind {
+		case 'f':
+			raw[(i*7+3)%len(raw)] ^= 0x10
+		case 't':
+			raw = raw[:len(raw)/2]
+		}
+		if done {
+			// a completed restore accepts nothing more
+			if _, err := rs.RestoreChunk(ctx, uint64(i), bytes.NewReader(raw)); err == nil {
+				c.fail("spec", "spec-restore-after-done", "RestoreChunk succeeded after the restore had completed")
+			}
+			continue
+		}
+		fin, err := rs.RestoreChunk(ctx, uint64(i), bytes.NewReader(raw))
+		switch {
+		case kind != 0:
+			c.res.Count("restore:corrupt-chunk")
+			if err == nil {
+				c.fail("spec", "spec-corrupt-chunk-accepted", fmt.Sprintf("chunk %d with altered bytes (%c) was accepted", i, kind))
+				return
+			}
+			if !errors.Is(err, checkpoint.ErrChunkCorrupted) {
+				if restored[i] && errors.Is(err, checkpoint.ErrChunkAlreadyRestored) {
+					break
+				}
+				c.fail("spec", "spec-corrupt-chunk-error-kind", fmt.Sprintf("chunk %d with altered bytes: %v (expected ErrChunkCorrupted)", i, err))
+				return
+			}
+		case restored[i]:
+			c.res.Count("restore:duplicate")
+			if !errors.Is(err, checkpoint.ErrChunkAlreadyRestored) {
+				c.fail("spec", "spec-duplicate-chunk", fmt.Sprintf("second RestoreChunk(%d): %v (expected ErrChunkAlreadyRestored)", i, err))
+				return
+			}
+		default:
+			if err != nil {
+				if c.deep && errors.Is(err, checkpoint.ErrChunkProofVerificationFailed) {
+					c.fail("spec", "proof-depth-exceeded-checkpoint-chunk", fmt.Sprintf("RestoreChunk(%d): %v", i, err))
+				} else {
+					c.fail("spec", "spec-honest-chunk-rejected", fmt.Sprintf("RestoreChunk(%d) into %s: %v", i, backend, err))
+				}
+				return
+			}
+			restored[i] = true
+			order = append(order, fmt.Sprint(i))
+			c.res.Count("restore:chunk")
+			if fin != (len(restored) == len(cd.chunks)) {
+				c.fail("spec", "spec-restore-done-flag", fmt.Sprintf("RestoreChunk(%d) returned done=%v with %d of %d chunks restored", i, fin, len(restored), len(cd.chunks)))
+				return
+			}
+			done = fin
+		}
+	}
+	// the rest, in order
+	for i := range cd.chunks {
+		if !restored[i] && !done {
+			fin, err := rs.RestoreChunk(ctx, uint64(i), bytes.NewReader(cd.chunks[i]))
+			if err != nil {
+				if c.deep && errors.Is(err, checkpoint.ErrChunkProofVerificationFailed) {
+					c.fail("spec", "proof-depth-exceeded-checkpoint-chunk", fmt.Sprintf("RestoreChunk(%d): %v", i, err))
+				} else {
+					c.fail("spec", "spec-honest-chunk-rejected", fmt.Sprintf("RestoreChunk(%d) into %s: %v", i, backend, err))
+				}
+				return
+			}
+			restored[i] = true
+			order = append(order, fmt.Sprint(i))
+			done = fin
+		}
+	}
+	if !done {
+		c.fail("spec", "spec-restore-done-flag", "all chunks restored but RestoreChunk never returned done")
+		return
+	}
+	if err := ndb.Finalize([]node.Root{s.root}); err != nil {
+		c.fail("spec", "spec-restored-root-not-finalizable", fmt.Sprintf("Finalize after restore into %s: %v", backend, err))
+		return
+	}
+	got, err := readAll(ndb, s.root)
+	if err != nil {
+		if aborted && strings.HasPrefix(backend, "pathbadger") {
+			c.fail("spec", "pathbadger-restore-after-abort-unreadable",
+				fmt.Sprintf("restore into %s after an aborted attempt at the same version (StartMultipartInsert; AbortMultipartInsert; StartMultipartInsert; all chunks; Finalize ok): reading the restored root fails: %v", backend, err))
+		} else {
+			c.fail("spec", "spec-restored-not-readable", fmt.Sprintf("reading the restored root from %s: %v", backend, err))
+		}
+		return
+	}
+	if len(got) != len(s.keys) {
+		c.fail("spec", "spec-restored-contents-differ", fmt.Sprintf("restored database (%s) has %d keys, the original %d", backend, len(got), len(s.keys)))
+		return
+	}
+	for i, e := range got {
+		if !bytes.Equal(e.k, s.keys[i]) || !bytes.Equal(e.v, s.ref[string(s.keys[i])]) {
+			c.fail("spec", "spec-restored-contents-differ", fmt.Sprintf("restored database (%s): item %d is %s=%s, original %s=%s", backend, i, hx(e.k), hx(e.v), hx(s.keys[i]), hx(s.ref[string(s.keys[i])])))
+			return
+		}
+	}
+	// every node of the original is in the restored database
+	for _, n := range s.nodes() {
+		h := n.GetHash()
+		if _, err := ndb.GetNode(s.root, &node.Pointer{Clean: true, Hash: h}); err != nil {
+			// pathbadger resolves nodes by position, not by bare hash: skip this probe there
+			if strings.HasPrefix(backend, "pathbadger") {
+				break
+			}
+			c.fail("spec", "spec-restored-node-missing", fmt.Sprintf("node %s missing in restored %s: %v", h, backend, err))
+			return
+		}
+	}
+	c.res.Count("restore:complete")
+	// model: same order, same number of distinct imported nodes, restore completes
+	distinct := map[hash.Hash]bool{}
+	for _, n := range s.nodes() {
+		distinct[n.GetHash()] = true
+	}
+	c.ask("restore "+strings.Join(order, ","), "restore-model-differs", expect(fmt.Sprintf("restored %d complete", len(distinct))))
+}
+
+// runBadProof: the metadata carries the digest of an altered chunk (so the digest check passes);
+// the proof must fail verification and nothing may be imported.
+func (c *c12Runner) runBadProof(idx int, kind string) {
+	if c.cp == nil || c.deep {
+		return
+	}
+	s := c.srv
+	cd := c.cp
+	idx = idx % len(cd.dec)
+	es := make([][]byte, len(cd.dec[idx]))
+	for i, e := range cd.dec[idx] {
+		if e != nil {
+			es[i] = append([]byte{}, e...)
+		}
+	}
+	changed := false
+	switch kind {
+	case "value": // alter the value of some leaf (embedded or full)
+		for i := len(es) - 1; i >= 0 && !changed; i-- {
+			if len(es[i]) > 8 {
+				es[i][len(es[i])-1] ^= 1
+				changed = true
+			}
+		}
+	case "drop":
+		if len(es) > 1 {
+			es = es[:len(es)-1]
+			changed = true
+		}
+	case "hash":
+		for i := range es {
+			if len(es[i]) == 33 && es[i][0] == 0x02 {
+				es[i][5] ^= 0x40
+				changed = true
+				break
+			}
+		}
+	case "garbage":
+		es = append(es, []byte{0x07, 0x07})
+		changed = true
+	}
+	if !changed {
+		return
+	}
+	raw, digest := encodeChunk(es)
+	meta := *cd.meta
+	meta.Chunks = append([]hash.Hash{}, cd.meta.Chunks...)
+	meta.Chunks[idx] = digest
+	ndb := openDB("badgermem", "")
+	defer ndb.Close()
+	rs, _ := checkpoint.NewRestorer(ndb)
+	if err := ndb.StartMultipartInsert(s.root.Version); err != nil {
+		panic(err)
+	}
+	if err := rs.StartRestore(ctx, &meta); err != nil {
+		panic(err)
+	}
+	_, err := rs.RestoreChunk(ctx, uint64(idx), bytes.NewReader(raw))
+	c.res.Count("badproof:" + kind)
+	if err == nil {
+		c.fail("spec", "spec-bad-proof-chunk-accepted", fmt.Sprintf("chunk %d altered (%s) with matching digest was imported", idx, kind))
+		return
+	}
+	if !errors.Is(err, checkpoint.ErrChunkProofVerificationFailed) {
+		c.fail("spec", "spec-bad-proof-error-kind", fmt.Sprintf("altered chunk %d (%s): %v (expected ErrChunkProofVerificationFailed)", idx, kind, err))
+		return
+	}
+	// the restore was aborted
+	if rs.GetCurrentCheckpoint() != nil {
+		c.fail("spec", "spec-bad-proof-not-aborted", "restore still in progress after a proof verification failure")
+	}
+	// nothing was imported: no node of the tree is readable
+	for _, n := range s.nodes() {
+		h := n.GetHash()
+		if _, err := ndb.GetNode(s.root, &node.Pointer{Clean: true, Hash: h}); err == nil {
+			c.fail("spec", "spec-bad-chunk-imported-nodes", fmt.Sprintf("node %s readable after a rejected chunk", h))
+			break
+		}
+	}
+	// model verdict on the altered entry list
+	p := &syncer.Proof{V: 0, UntrustedRoot: s.root.Hash, Entries: es}
+	c.ask(proofLine(s.root.Hash, p), "verdict-differs", func(ans string) string {
+		if strings.HasPrefix(ans, "ok") {
+			return "model accepts the altered chunk that the implementation rejected: " + trunc(ans)
+		}
+		return ""
+	})
+}
+
+func runCaseC12(lines []string, res *hlib.Result) (fails []hlib.Failure, nlines int) {
+	var kvs []kv
+	backend := "badgermem"
+	for _, l := range lines {
+		w := strings.Fields(l)
+		switch w[0] {
+		case "kv":
+			kvs = append(kvs, kv{unhx(w[1]), unhx(w[2])})
+		case "src":
+			backend = w[1]
+		}
+	}
+	c := &c12Runner{}
+	c.res = res
+	func() {
+		defer func() {
+			if r := recover(); r != nil {
+				c.fail("panic", "driver-panic", fmt.Sprint(r))
+			}
+		}()
+		c.srv = newServer(backend, kvs, 1)
+		defer c.srv.close()
+		c.ask("new", "model-error", expect("ok"))
+		for _, e := range kvs {
+			c.ask("insert "+hx(e.k)+" "+hx(e.v), "model-error", expect("ok"))
+		}
+		c.ask("root", "root-differs", expect("root "+hx(c.srv.root.Hash[:])))
+		for _, l := range lines {
+			w := strings.Fields(l)
+			switch w[0] {
+			case "cp":
+				c.runCp(uint64(atoi(w[1])), uint16(atoi(w[2])))
+			case "restore":
+				c.runRestore(w[1], strings.Split(w[2], ","))
+			case "badproof":
+				c.runBadProof(atoi(w[1]), w[2])
+			case "restorec":
+				c.runRestoreConcurrent(w[1], atoi(w[2]), uint64(atoi(w[3])))
+			}
+		}
+	}()
+	if len(c.lines) > 0 {
+		ans, err := hlib.RunModel("proof", c.lines)
+		if err != nil {
+			c.fail("divergence", "model-error", err.Error())
+		} else {
+			for i, a := range ans {
+				if d := c.checks[i](a); d != "" {
+					c.fail("divergence", c.sigs[i], fmt.Sprintf("at `%s`: %s", trunc(c.lines[i]), d))
+					break
+				}
+			}
+		}
+	}
+	return c.failures, len(c.lines)
+}
+
+func genCaseC12(r *hlib.Rng, res *hlib.Result, i int, big int) []string {
+	var lines []string
+	backends := []string{"badgermem", "pathbadgermem", "badger", "pathbadger"}
+	lines = append(lines, "src "+backends[r.Intn(len(backends))])
+	var keys [][]byte
+	isBig := i >= 1 && i <= big
+	switch {
+	case i == 0:
+		deepForce = true
+		keys = genKeys(r, 6, res)
+	case isBig:
+		res.Count("shape:big")
+		seen := map[string]bool{}
+		n := 1000 + r.Intn(2500)
+		for len(keys) < n {
+			k := randBytes(r, 2+r.Intn(5))
+			if !seen[string(k)] {
+				seen[string(k)] = true
+				keys = append(keys, k)
+			}
+		}
+	default:
+		deepForce = false
+		shape := []int{0, 0, 1, 1, 2, 3, 3, 3, 4, 5}[r.Intn(10)]
+		keys = genKeys(r, shape, res)
+	}
+	total := 0
+	for _, k := range keys {
+		v := genValue(r)
+		if isBig {
+			v = randBytes(r, 1+r.Intn(8))
+		}
+		total += len(k) + len(v) + 10
+		lines = append(lines, "kv "+hx(k)+" "+hx(v))
+	}
+	sizes := []int{0, 1, 2, 10, 50, 100, 200, 500, 4096, 1 << 20}
+	threads := []int{0, 0, 0, 1, 1, 2, 3, 4, 8, 16, 32}
+	ncp := 1 + r.Intn(3)
+	if i == 0 {
+		ncp = 1
+	}
+	for a := 0; a < ncp; a++ {
+		size := sizes[r.Intn(len(sizes))]
+		if isBig {
+			// keep the number of chunks of big trees moderate (model cost is per chunk)
+			size = total/(4+r.Intn(12)) + 1
+		}
+		thr := threads[r.Intn(len(threads))]
+		lines = append(lines, fmt.Sprintf("cp %d %d", size, thr))
+		if i == 0 {
+			lines = append(lines, "restore badgermem 0")
+			continue
+		}
+		nres := 1 + r.Intn(2)
+		for b := 0; b < nres; b++ {
+			// a shuffled order with duplicates, corruptions and aborts; indices are taken modulo
+			// the number of chunks
+			nsteps := 1 + r.Intn(12)
+			var steps []string
+			for c := 0; c < nsteps; c++ {
+				x := r.Intn(40)
+				switch y := r.Intn(20); {
+				case y == 0:
+					steps = append(steps, "A")
+				case y == 1:
+					steps = append(steps, fmt.Sprintf("%df", x))
+				case y == 2:
+					steps = append(steps, fmt.Sprintf("%dt", x))
+				default:
+					steps = append(steps, fmt.Sprint(x))
+				}
+			}
+			be := backends[r.Intn(len(backends))]
+			if isBig {
+				be = []string{"badgermem", "pathbadgermem"}[r.Intn(2)]
+			}
+			lines = append(lines, fmt.Sprintf("restore %s %s", be, strings.Join(steps, ",")))
+		}
+		if r.Chance(1, 3) {
+			lines = append(lines, fmt.Sprintf("restorec %s %d %d", backends[r.Intn(len(backends))], 2+r.Intn(5), r.Next()>>2))
+		}
+		if r.Chance(1, 2) {
+			lines = append(lines, fmt.Sprintf("badproof %d %s", r.Intn(40), []string{"value", "drop", "hash", "garbage"}[r.Intn(4)]))
+		}
+	}
+	_ = sort.Strings
+	_ = filepath.Join
+	return lines
+}
